@@ -31,7 +31,8 @@ class C03(Harness):
 
     def bounds(self, tier):
         return {'depth': {'ordering': 3 if tier == 'quick' else 4, 'filtering': 2 if tier == 'quick' else 3,
-                          'cascade': 3 if tier == 'quick' else 4, 'slot': 3 if tier == 'quick' else 4, 'class': 3 if tier == 'quick' else 4},
+                          'cascade': 3 if tier == 'quick' else 4, 'slot': 3 if tier == 'quick' else 4, 'class': 3 if tier == 'quick' else 4,
+                          'oneshot': 3 if tier == 'quick' else 4},
                 'configs': len(self.configs(tier)), 'equality_domain': NVALS}
 
     def configs(self, tier):
@@ -60,6 +61,12 @@ class C03(Harness):
             specs = [W(0, ['n'], what='bounds', queued=q, onlychanged=False, action=['set', 'a', 1]),
                      W(1, ['a'], onlychanged=False, action=['set', 'b', 2]), W(2, ['a', 'b'], onlychanged=True, precedence=1)]
             out.append({'slice': 'slot', 'specs': specs})
+        # 6 one-shot watchers: a callback that removes its own registration while the event is being dispatched
+        #   (every watcher registered when the assignment was made is still called exactly once; the removed one never again)
+        for precs in itertools.product((0, 1), repeat=3):
+            for j in range(3):
+                specs = [W(i, ['a'] if i != 1 else ['a', 'b'], onlychanged=False, precedence=precs[i], action=['unwatch', i] if i == j else None) for i in range(3)]
+                out.append({'slice': 'oneshot', 'specs': specs})
         # 5 class-level watchers and class-level assignment
         for precs in itertools.product((0, 1), repeat=2):
             specs = [W(0, ['a'], target='cls', precedence=precs[0], onlychanged=False),
@@ -82,6 +89,12 @@ class C03(Harness):
             for i in range(3):
                 mw = [w for w in world.model.W if w['id'] == 'w%d' % i][0]
                 ops.append(['unwatch', i] if mw['active'] else ['watch', i])
+        elif s == 'oneshot':
+            ops = [['set', 'a', 1], ['set', 'a', 2], ['update', [['a', 1], ['b', 1]]], ['trigger', ['a']]]
+            for i in range(3):
+                mw = [w for w in world.model.W if w['id'] == 'w%d' % i][0]
+                if not mw['active']:
+                    ops.append(['watch', i])
         elif s == 'filtering':
             ops = [['set', 'a', v] for v in EQ_DOMAIN]
         elif s == 'cascade':
